@@ -51,7 +51,9 @@ JSON JSON::parse(StringReader& r, bool disable_extensions) {
       expected_separator = ',';
 
       skip_whitespace_and_comments(r, disable_extensions);
-      if (!disable_extensions && (r.get_s8(false) == '}')) {
+      // An immediately-closed dictionary ({}) is standard; only a close after
+      // a comma (trailing comma) is an extension.
+      if ((!disable_extensions || (separator == '{')) && (r.get_s8(false) == '}')) {
         r.get_s8();
         break;
       }
@@ -80,7 +82,9 @@ JSON JSON::parse(StringReader& r, bool disable_extensions) {
       expected_separator = ',';
 
       skip_whitespace_and_comments(r, disable_extensions);
-      if (!disable_extensions && (r.get_s8(false) == ']')) {
+      // An immediately-closed list ([]) is standard; only a close after a
+      // comma (trailing comma) is an extension.
+      if ((!disable_extensions || (separator == '[')) && (r.get_s8(false) == ']')) {
         r.get_s8();
         break;
       }
